@@ -107,7 +107,7 @@ def closed_models(run, prop):
         write_cfg(run, "MultiPass_MC_run.cfg", sc["mc"], sc["mc_steps"], "SPECIFICATION Spec\nVIEW view\nINVARIANTS " + INVS)
         jobs.append(("mc", lambda: run.closed_model("MultiPass", "MultiPass_MC_run.cfg", workers=4 if dev else 8, heap="4g" if dev else "8g",
                                                     timeout=3000)))
-        write_cfg(run, "MultiPass_Cov_run.cfg", "Catalogs = {1}  Limits = {2}  Daemons = {1}  Batches = {2, 3}  Laters = {1}", 9,
+        write_cfg(run, "MultiPass_Cov_run.cfg", "Catalogs = {1}  Limits = {2}  Daemons = {1}  Batches = {2}  Laters = {1}", 8,
                   "SPECIFICATION Spec\nVIEW view\nINVARIANTS " + INVS)
         jobs.append(("cov", lambda: run.tlc("MultiPass", "MultiPass_Cov_run.cfg", workers=2, coverage=True, timeout=1500, heap="3g")))
     for cfg in WEAK:
@@ -288,6 +288,10 @@ def explore(rng, name):
             arrived += 1
         if rng.random() < 0.3:
             steps.append(dict(BLANK, a=rng.choice(["Mark", "Delete"]), c="#%d" % rng.randrange(3)))
+        if rng.random() < 0.15:
+            steps.append(dict(BLANK, a="Restart"))
+            if rng.random() < 0.5:
+                steps.append(dict(BLANK, a="Pass", deliver=False))
     scn = {"options": {"create": True}, "types": types, "pools": pools, "nodes": [], "ds": dss, "scs": [], "pvs": [], "pvcs": [], "pods": pods}
     return {"name": name, "scenario": scn, "later": later, "steps": steps}
 
@@ -355,6 +359,13 @@ def pipeline(run, prop):
         run.notes.append("MODEL-DRIFT: Cluster.NodePoolResourcesFor differed from the API truth right after a full informer delivery in %d "
                          "places (C11's business, not judged here), e.g. %s" % (len(xdrift), {k: xdrift[0].get(k) for k in ("file", "line")}))
     tlc_names = {b["name"] for b in behs if not b["name"].startswith("x-")}
+    run.viol = [v for v in run.viol if not str(v.get("guard", "")).startswith(("Drift_MP_", "Obs_C04_"))]
+    obs = [v for v in viol if str(v.get("guard", "")).startswith("Obs_C04_RepackAddsNode")]
+    run.extra_cov["observation_rerun_repacks_and_adds_a_node"] = len(obs)
+    if obs:
+        run.notes.append("OBSERVATION (not judged): in %d passes every pending pod had been nominated to a live NodeClaim, yet the re-run "
+                         "stored another NodeClaim because first-fit re-packed the pods over SEVERAL in-flight nodes in a different order "
+                         "(G_C04_OpenOnlyIfNoneAdmits held at that open); e.g. %s" % (len(obs), {k: obs[0].get(k) for k in ("file", "line")}))
     skips = sum(s.get("skips", 0) - s.get("skipsLaunchRest", 0) for s in sums if s["name"] in tlc_names)
     steps = sum(len(b["steps"]) for b in behs if b["name"] in tlc_names)
     run.extra_cov.update({
